@@ -197,7 +197,7 @@ static void op_nv_define(World *w, Buf *b) {
     if (w->nnv >= W_MAXNV) return;
     WNv n; memset(&n, 0, sizeof n);
     n.idx = 0x01400000u + rnd(24); n.type = (int[]){0, 0, 1, 2, 4}[rnd(5)];
-    n.size = n.type == 0 ? (uint16_t[]){1, 8, 32, 100, 1024}[rnd(5)] : (n.type == 4 ? 32 : 8);
+    n.size = n.type == 0 ? (uint16_t[]){1, 8, 32, 100, 1024, 1025, 2048}[rnd(7)] : (n.type == 4 ? 32 : 8);
     uint32_t a = (1u << 2) | (1u << 18) | (1u << 1) | (1u << 17);            /* AUTHWRITE AUTHREAD OWNERWRITE OWNERREAD */
     a |= (uint32_t)n.type << 4;
     if (chance(25)) a |= 1u << 25;                                          /* NO_DA */
@@ -223,14 +223,16 @@ static void op_nv_use(World *w, Buf *b) {
     if (chance(8)) pw = "wrong";
     int k = rnd(10);
     if (k < 4) { /* write-type op by type */
-        if (n->type == 0) { uint16_t len = n->attrs & (1u << 12) ? n->size : 1 + rnd(n->size > 64 ? 64 : n->size); uint16_t off = n->attrs & (1u << 12) ? 0 : rnd(n->size - len + 1);
+        if (n->type == 0) { uint16_t len = n->attrs & (1u << 12) ? (n->size > 1024 ? 1024 : n->size) : 1 + rnd(n->size > 64 ? (chance(20) ? (n->size > 1024 ? 1024 : n->size) : 64) : n->size); uint16_t off = n->attrs & (1u << 12) ? 0 : rnd(n->size - len + 1);
             uint8_t d[1024]; for (int q = 0; q < len; q++) d[q] = rnd(256);
             cmd_begin(b, ST_SESSIONS, CC_NV_Write); b_u32(b, ah); b_u32(b, n->idx); auth_pw_s(b, pw); b_2b(b, d, len); b_u16(b, off); }
         else if (n->type == 1) { cmd_begin(b, ST_SESSIONS, CC_NV_Increment); b_u32(b, ah); b_u32(b, n->idx); auth_pw_s(b, pw); }
         else if (n->type == 2) { cmd_begin(b, ST_SESSIONS, CC_NV_SetBits); b_u32(b, ah); b_u32(b, n->idx); auth_pw_s(b, pw); b_u64(b, 1ULL << rnd(64)); }
         else { cmd_begin(b, ST_SESSIONS, CC_NV_Extend); b_u32(b, ah); b_u32(b, n->idx); auth_pw_s(b, pw); b_2b(b, "extend-data", 11); }
         Rsp r = w_run(w, b); if (r.rc == 0) n->written = 1;
-    } else if (k < 7) { cmd_begin(b, ST_SESSIONS, CC_NV_Read); b_u32(b, ah); b_u32(b, n->idx); auth_pw_s(b, pw); b_u16(b, n->size > 512 ? 512 : n->size); b_u16(b, 0); w_run(w, b); }
+    } else if (k < 7) { uint16_t rs = chance(70) ? (n->size > 512 ? 512 : n->size) : (uint16_t[]){1, 1024, 1025, 2048, 2049}[rnd(5)]; if (chance(30)) rs = n->size;
+        uint16_t ro = (rs < n->size && chance(30)) ? rnd(n->size - rs + 1) : 0;
+        cmd_begin(b, ST_SESSIONS, CC_NV_Read); b_u32(b, ah); b_u32(b, n->idx); auth_pw_s(b, pw); b_u16(b, rs); b_u16(b, ro); w_run(w, b); }
     else if (k == 7) { cmd_begin(b, ST_SESSIONS, chance(50) ? CC_NV_WriteLock : CC_NV_ReadLock); b_u32(b, ah); b_u32(b, n->idx); auth_pw_s(b, pw); w_run(w, b); }
     else if (k == 8) { cmd_begin(b, ST_NO_SESSIONS, CC_NV_ReadPublic); b_u32(b, n->idx); w_run(w, b); }
     else { cmd_begin(b, ST_SESSIONS, CC_NV_UndefineSpace); b_u32(b, RH_OWNER); b_u32(b, n->idx); auth_pw_s(b, w->ownerAuth);
